@@ -282,7 +282,7 @@ def invalid_case():
             "field": field,
             "n_items": st.integers(1, 3),
             "at": st.integers(0, 2),
-            "how": st.sampled_from(["non-dict", "missing-key", "missing-key2"]),
+            "how": st.sampled_from(["non-dict", "missing-key", "missing-key2", "empty-dict"]),
             "bad": st.sampled_from(BAD_ITEMS),
             "bad_source": st.sampled_from([3, "lib/", ["a"], {"package": "htmltools"}, {}, {"dir": "x"}, 2.5, {"mapping": "proxy"}, {"mapping": "userdict"}, {"mapping": "chainmap"}]),
             "single": st.booleans(),
@@ -326,6 +326,9 @@ def body_invalid(case, note):
             cls = f + ":non-dict-item"
             if isinstance(case["bad"], dict) and "mapping" in case["bad"]:
                 cls = f + ":non-dict-mapping-item"
+        elif case["how"] == "empty-dict":
+            bad[f][i] = {}
+            cls = f + ":empty-dict-item"
         else:
             req = REQ[f]
             key = req[0] if case["how"] == "missing-key" else req[-1]
@@ -384,7 +387,7 @@ CLAUSES = [
         thorough=4000,
         shards_quick=1,
         shards_thorough=4,
-        required=("script:missing-src", "stylesheet:missing-href", "meta:missing-name", "meta:missing-content", "script:non-dict-item", "source:dict", "source:int", "index>0", "source:non-dict-mapping", "script:non-dict-mapping-item"),
+        required=("script:missing-src", "stylesheet:missing-href", "meta:missing-name", "meta:missing-content", "script:non-dict-item", "source:dict", "source:int", "index>0", "source:non-dict-mapping", "script:non-dict-mapping-item", "script:empty-dict-item:single", "meta:empty-dict-item:single", "stylesheet:empty-dict-item"),
         rule="every case",
     ),
 ]
